@@ -18,7 +18,7 @@ import types
 import z3
 
 from .values import (Sym, PObj, PList, PDict, PSet, DictView, JsonText, BoundMethod, BuiltinMethod, Closure,
-                     SuperProxy, Foreign, Opaque, Unsupported, V, mk, kind_of, is_sym, z3_of, to_U, py_eq_scalar,
+                     SuperProxy, Foreign, Opaque, Unsupported, AnyVal, LockVal, V, mk, kind_of, is_sym, z3_of, to_U, py_eq_scalar,
                      truthy_scalar, sym_not, sym_and, sym_or, as_z3_bool, ite_value, NUM)
 from . import loader
 
@@ -73,6 +73,8 @@ class Shared:
         self.z3_first_ms = 2500 if quick else 20000
         self.cvc5_ms = 15000 if quick else 120000
         self.z3_unknown = 0
+        self.faulting = False
+        self.havoc_unmodelled = False
         self.cvc5_decided = 0
         self.max_paths = max_paths
         self.trusted = set()
@@ -125,6 +127,8 @@ class Ctx:
         self.lift_cache = {}
         self.memo = {}
         self.atoms = []
+        self.any_ops = []
+        self.fault_at = None
         self.depth = 0
         self.notes = []
 
@@ -321,11 +325,27 @@ def convertible_if(node):
     return all(_convertible_stmt(s) for s in node.body) and all(_convertible_stmt(s) for s in node.orelse)
 
 
+class InjectedFault(Exception):
+    """stands for ANY exception a library call may raise (fault sequences)"""
+    _pyvc_any_exception = True
+
+
 class Interp:
     def __init__(self, ctx):
         self.ctx = ctx
         from . import models
         self.models = models
+
+    # =================================================================================== havoc / faults
+    def any_op(self, what, result=True):
+        """an operation on an unknown value: may fault (if the contract asks for the faulting variant), else yields AnyVal"""
+        ctx = self.ctx
+        ctx.any_ops.append(what)
+        if ctx.shared.faulting:
+            if ctx.choose([z3.BoolVal(True), z3.BoolVal(True)], f'fault@{what}') == 1:
+                ctx.fault_at = (len(ctx.any_ops) - 1, what)
+                raise PyRaise(PObj(InjectedFault, {'args': (what,)}))
+        return AnyVal(what) if result else None
 
     # =================================================================================== exceptions
     def raise_(self, cls, *args):
@@ -380,6 +400,11 @@ class Interp:
             return True
         if isinstance(v, Opaque) and v.truthy is not None:
             return v.truthy
+        if isinstance(v, AnyVal):
+            self.any_op(f'bool({v.label})', result=False)
+            return self.ctx.fresh('anybool', 'bool')
+        if isinstance(v, LockVal):
+            return True
         if isinstance(v, (Foreign, Opaque)):
             raise Unsupported('truth value of an opaque object')
         if isinstance(v, (Closure, BoundMethod, BuiltinMethod)) or isinstance(v, NATIVE_OK):
@@ -397,6 +422,9 @@ class Interp:
         return None
 
     def py_eq(self, a, b):
+        if isinstance(a, AnyVal) or isinstance(b, AnyVal):
+            self.any_op('==', result=False)
+            return self.ctx.fresh('anybool', 'bool')
         if isinstance(a, PObj):
             m = self.find_method(a.cls, '__eq__')
             if m is not None:
@@ -438,6 +466,10 @@ class Interp:
 
     def is_(self, a, b):
         """`a is b`"""
+        if isinstance(a, AnyVal) or isinstance(b, AnyVal):
+            if a is None or b is None or a is b:
+                return self.ctx.fresh('anybool', 'bool') if not (a is b) else True
+            return self.ctx.fresh('anybool', 'bool')
         for x, y in ((a, b), (b, a)):
             if y is None:
                 if x is None:
@@ -577,6 +609,10 @@ class Interp:
     # =================================================================================== attributes
     def getattr_(self, obj, name):
         ctx = self.ctx
+        if isinstance(obj, AnyVal):
+            return AnyVal(f'{obj.label}.{name}')
+        if isinstance(obj, LockVal):
+            return BuiltinMethod(obj, name)
         if isinstance(obj, PObj):
             return self.obj_getattr(obj, name)
         if isinstance(obj, SuperProxy):
@@ -691,6 +727,8 @@ class Interp:
             return self.call_closure(fn, list(args), kwargs)
         if isinstance(fn, Foreign):
             return Opaque()
+        if isinstance(fn, AnyVal):
+            return self.any_op(f'{fn.label}()')
         if isinstance(fn, types.MethodType):
             return self.call(fn.__func__, [self.lift(fn.__self__)] + list(args), kwargs)
         if isinstance(fn, (staticmethod, classmethod)):
@@ -707,9 +745,16 @@ class Interp:
             mod = fn.__module__ or ''
             if mod == 'fim' or mod.startswith('fim.'):
                 return self.call_pyfunc(fn, list(args), kwargs)
+            if ctx.shared.havoc_unmodelled:
+                return self.any_op(f'{mod.split(".")[0]}.{fn.__name__}()')
             raise Unsupported(f'call of unmodelled function {mod}.{fn.__qualname__}')
         if isinstance(fn, type):
+            if ctx.shared.havoc_unmodelled and not ((fn.__module__ or '').startswith('fim') or fn.__module__ == 'builtins'
+                                                    or issubclass(fn, BaseException)):
+                return self.any_op(f'{(fn.__module__ or "").split(".")[0]}.{fn.__name__}()')
             return self.instantiate(fn, list(args), kwargs)
+        if ctx.shared.havoc_unmodelled and callable(fn):
+            return self.any_op(f'{getattr(fn, "__module__", "") or ""}.{getattr(fn, "__name__", "fn")}()')
         raise Unsupported(f'call of {fn!r}')
 
     def instantiate(self, cls, args, kwargs):
@@ -1060,6 +1105,14 @@ class Interp:
     # =================================================================================== iteration
     def iterate(self, v):
         """python iteration protocol over modelled values (a generator, live for lists and dict views)"""
+        if isinstance(v, AnyVal):
+            # 0, 1 or 2 elements: sound for properties whose loop bodies do not touch the tracked ghost state
+            self.any_op(f'iter({v.label})', result=False)
+            n = self.ctx.choose([z3.BoolVal(True)] * 3, 'iterations of a loop over an unknown collection')
+            for i in range(n):
+                self.any_op(f'next({v.label})', result=False)
+                yield AnyVal(f'{v.label}[{i}]')
+            return
         if isinstance(v, PList):
             i = 0
             while i < len(v.items):
@@ -1311,6 +1364,9 @@ class Interp:
         return result
 
     def compare(self, op, a, b):
+        if (isinstance(a, AnyVal) or isinstance(b, AnyVal)) and not isinstance(op, (ast.Is, ast.IsNot, ast.Eq, ast.NotEq)):
+            self.any_op(type(op).__name__, result=False)
+            return self.ctx.fresh('anybool', 'bool')
         if isinstance(op, ast.Eq):
             return self.py_eq(a, b)
         if isinstance(op, ast.NotEq):
@@ -1348,6 +1404,8 @@ class Interp:
         return self.binop(e.op, a, b)
 
     def binop(self, op, a, b):
+        if isinstance(a, AnyVal) or isinstance(b, AnyVal):
+            return self.any_op(type(op).__name__)
         name = {ast.Add: '__add__', ast.Sub: '__sub__', ast.Mult: '__mul__'}.get(type(op))
         if isinstance(a, PObj) and name:
             m = self.find_method(a.cls, name)
